@@ -10,25 +10,28 @@ use std::{
 
 #[derive(Debug, Default, Clone)]
 pub(crate) struct MemoryStats {
-    pub cache_hits: Cell<u32>,
-    pub cache_misses: Cell<u32>,
-    pub frames_evicted: Cell<u16>,
+    pub cache_hits: Cell<u64>,
+    pub cache_misses: Cell<u64>,
+    pub frames_evicted: Cell<u64>,
 }
 
+// The counters are statistics only: they must never get in the way of a page access. (`frames_evicted` was a
+// u16 incremented with `+ 1`: the 65536th eviction overflowed, which panics in builds with overflow checks -
+// with a small cache every statement failed from then on.)
 impl MemoryStats {
     fn cache_hit(&self) {
         let current = self.cache_hits.get();
-        self.cache_hits.set(current + 1);
+        self.cache_hits.set(current.wrapping_add(1));
     }
 
     fn cache_miss(&self) {
         let current = self.cache_misses.get();
-        self.cache_misses.set(current + 1);
+        self.cache_misses.set(current.wrapping_add(1));
     }
 
     fn eviction(&self) {
         let current = self.frames_evicted.get();
-        self.frames_evicted.set(current + 1);
+        self.frames_evicted.set(current.wrapping_add(1));
     }
 }
 impl Display for MemoryStats {
